@@ -189,6 +189,7 @@ type Interp struct {
 	tags      []string
 	pathUnknown bool
 	timeSeq   *sym.Term
+	inlineGo  bool // vsym.InlineGoroutines: go statements run to completion at the spawn point
 	knownSeen map[string]int
 	knownKept int
 	frozenClock *sym.Term // set by vsym.FreezeClock: the environment clock stands still (observability-only uses of time)
@@ -376,6 +377,7 @@ func (in *Interp) resetPath() {
 	in.tags = nil
 	in.pathUnknown = false
 	in.timeSeq = nil
+	in.inlineGo = false
 	in.frozenClock = nil
 	in.seq = 0
 	in.concPos = 0
@@ -1101,7 +1103,20 @@ type mergeState struct {
 
 type mergeAbort struct{}
 
-var summarizeRe = regexp.MustCompile(`(^|\.)(sov|soz)[A-Z]\w*$|ZanRedisDB/raft\.(min|max|voteRespMsgType|IsLocalMsg|IsResponseMsg)$`)
+var summarizeRe = regexp.MustCompile(`(^|\.)(sov|soz)[A-Z]\w*$|ZanRedisDB/raft\.(min|max|voteRespMsgType|IsLocalMsg|IsResponseMsg|isHardStateEqual|IsEmptyHardState|MustSync)$`)
+
+// summarizableArg: a scalar term, or a struct value (passed by value, so the callee cannot change the caller's
+// copy) whose fields are such values; other field kinds (slices, pointers) are allowed inside a struct - a
+// whitelisted pure function only reads scalars.
+func summarizableArg(v Value) bool {
+	switch x := v.(type) {
+	case *sym.Term:
+		return true
+	case *Agg:
+		return x != nil
+	}
+	return false
+}
 
 // summarize runs a pure scalar function on all of its local paths and merges the results into one ite term.
 // ok=false means the function could not be summarised (panic inside, too many paths, non-scalar result).
@@ -1110,7 +1125,7 @@ func (in *Interp) summarize(fn *ssa.Function, args []Value) (res Value, ok bool)
 		return nil, false
 	}
 	for _, a := range args {
-		if _, isT := a.(*sym.Term); !isT {
+		if !summarizableArg(a) {
 			return nil, false
 		}
 	}
